@@ -521,6 +521,22 @@ def interleave_fails(case):
     return None
 
 
+def empty_value_fails():
+    """a program whose value is an EMPTY array (differences of neighbours of a vector of length one): every driver returns the
+    empty derivative array of the right shape"""
+    def res(x):
+        return x[1:] * x[1:] - x[:-1] * x[:-1]
+    x, v = np.array([3.0]), np.array([1.0])
+    try:
+        J = np.asarray(UTPM.extract_jacobian(res(UTPM.init_jacobian(x))))
+        Jv = np.asarray(UTPM.extract_jac_vec(res(UTPM.init_jac_vec(x, v))))
+    except Exception as ex:
+        return 'empty-value-exception: a driver raised %s for a program with an empty value' % (type(ex).__name__ + ':' + str(ex)[:60])
+    if J.shape != (0, 1) or Jv.shape != (0,):
+        return 'empty-value-shape: Jacobian shape %s (expected (0, 1)), J v shape %s (expected (0,))' % (J.shape, Jv.shape)
+    return None
+
+
 def utp_drivers_fail(case):
     """the drivers called on the exported convenience class algopy.UTP give the same seeds and the same derivatives as on UTPM"""
     x, v = np.array(case['x'], dtype=float), np.array(case['v'], dtype=float)
@@ -549,6 +565,8 @@ def utp_drivers_fail(case):
 def replay_case(ctx, case):
     if case.get('op') == 'utp-drivers':
         return utp_drivers_fail(case)
+    if case.get('op') == 'empty-value':
+        return empty_value_fails()
     if case.get('op') == 'interleave':
         return interleave_fails(case)
     if case.get('op') == 'nested':
@@ -567,6 +585,11 @@ def replay_case(ctx, case):
 
 
 def run(ctx):
+    ctx.evaluations += 1
+    ctx.count('empty-value')
+    f_ = empty_value_fails()
+    if f_:
+        ctx.report({'op': 'empty-value'}, 'failure', f_)
     for N_ in (1, 2, 3):
         case = {'op': 'utp-drivers', 'x': rand_coeffs(ctx.rng, (N_,), -2, 2), 'v': rand_coeffs(ctx.rng, (N_,), -1, 1)}
         ctx.evaluations += 1
